@@ -59,6 +59,7 @@ type val struct {
 	sq     *sqrtPend
 	nat    bool // kInt: a length (Coq nat); otherwise a Go int parameter (Coq Z)
 	lit    bool // kInt: an integer literal (either)
+	poison bool // result of a call that failed
 }
 
 type logEnt struct {
